@@ -16,3 +16,33 @@ SPECS = [
                 ('eigen_sym33_non_unit', ['M33'], dict(coq_name='eig_trig_stage',
                                                        prefix=dict(upto='eval2', returns=['c1', 'c2', 'c3', 'rr', 'arg', 'eval2'])))]),
 ]
+
+# round 4: the part of eigen_sym33_non_unit AFTER the trigonometric root -- pivoted deflation, 2x2 Wilkinson shift, eigenvectors.
+# A separate module (its own copy of the Pade kernel) so that Gen_TensorMathFun, shared with C10, is untouched.
+#   eig_full_pre : the routine from its first statement to `evec1` (everything before the isotropic fallback / argsort), for execution
+#   eig_deflate  : the SEGMENT after `eval2 = ...` up to `evec1`, with the deviatoric entries and eval2 as free variables
+#   eig_pivot / eig_gs / eig_wilkinson / eig_vectors : the same segment cut at ki_ki / evec2 / eval1 (the theorems are about their composition)
+_D6 = [(n, 'S') for n in ('cxx', 'cyy', 'czz', 'cxy', 'cyz', 'czx')]
+_E = 'eigen_sym33_non_unit'
+_SQ = ['cxy_cxy', 'cyz_cyz', 'czx_czx']
+SPECS.append(
+    dict(name='TensorMathEig', file='optimism/TensorMath.py', deps=['Math'],
+         funcs=[('cos_of_acos_divided_by_3', ['S']),
+                (_E, ['M33'], dict(coq_name='eig_full_pre',
+                                   prefix=dict(upto='evec1', returns=['c1', 'c2', 'eval0', 'eval1', 'eval2', 'evec0', 'evec1', 'evec2']))),
+                (_E, ['M33'], dict(coq_name='eig_deflate', free=_D6 + [('eval2', 'S')],
+                                   segment=dict(after='eval2', upto='evec1', keep=_SQ, drop_params=True,
+                                                returns=['eval0', 'eval1', 'evec0', 'evec1', 'evec2']))),
+                (_E, ['M33'], dict(coq_name='eig_pivot', free=_D6 + [('eval2', 'S')],
+                                   segment=dict(after='eval2', upto='ki_ki', keep=_SQ, drop_params=True,
+                                                returns=['k_row1', 'row2', 'row3', 'ki_ki']))),
+                (_E, ['M33'], dict(coq_name='eig_gs', free=[('k_row1', 'V3'), ('row2', 'V3'), ('row3', 'V3'), ('ki_ki', 'S')],
+                                   segment=dict(after='ki_ki', upto='evec2', drop_params=True, returns=['a_row2', 'ai_ai', 'evec2']))),
+                (_E, ['M33'], dict(coq_name='eig_wilkinson',
+                                   free=_D6 + [('k_row1', 'V3'), ('a_row2', 'V3'), ('ki_ki', 'S'), ('ai_ai', 'S')],
+                                   segment=dict(after='evec2', upto='eval1', drop_params=True,
+                                                returns=['rm2xx', 'rm2yy', 'k_a_rm2xy', 'rm2xy_rm2xy', 'eval0', 'eval1']))),
+                (_E, ['M33'], dict(coq_name='eig_vectors',
+                                   free=[('rm2xx', 'S'), ('rm2yy', 'S'), ('k_a_rm2xy', 'S'), ('rm2xy_rm2xy', 'S'), ('eval0', 'S'),
+                                         ('k_row1', 'V3'), ('a_row2', 'V3'), ('ki_ki', 'S'), ('ai_ai', 'S'), ('evec2', 'V3')],
+                                   segment=dict(after='eval1', upto='evec1', drop_params=True, returns=['evec0', 'evec1'])))]))
